@@ -1,16 +1,127 @@
-// L2 family (EthernetII, Dot3, LLC, SNAP, Dot1Q, MPLS, PPPoE, SLL, Loopback, PPI, PKTAP) — modelled so far: EthernetII
+// L2 family: EthernetII, Dot3, LLC, SNAP, Dot1Q, MPLS, PPPoE, SLL, Loopback, PPI, PKTAP
+// Field names, order and value formats are those of lean/TinsModel/Wire/L2/<Class>.lean `fields`.
 #pragma once
 #include "wire_iface.h"
+#include <memory>
+#include <sys/socket.h>
+#include <pcap.h>
+
+// The platform constants the Lean model hard-codes (lean/TinsModel/Wire/L2/{Loopback,Ppi,Pktap}.lean): if this platform
+// disagrees the harness does not build and the checks report it.
+static_assert(PF_INET == 2 && PF_INET6 == 10, "Loopback.lean: PF_INET / PF_INET6");
+#ifdef PF_LLC
+static_assert(PF_LLC == 26, "Loopback.lean: PF_LLC");
+#endif
+static_assert(DLT_NULL == 0 && DLT_EN10MB == 1 && DLT_IEEE802_11 == 105 && DLT_LINUX_SLL == 113 &&
+              DLT_IEEE802_11_RADIO == 127 && DLT_PPI == 192, "Ppi.lean / Pktap.lean: DLT_* values");
 namespace wire {
 
+inline std::string pppoe_typed(const PPPoE& p, PPPoE::TagTypes t) {
+    const PPPoE::tag* tg = p.search_tag(t);
+    if (!tg) return "nf";
+    return vh::to_hex(tg->data_ptr(), tg->data_size());
+}
+
+inline std::string pppoe_vendor(const PPPoE& p) {
+    try {
+        PPPoE::vendor_spec_type v = p.vendor_specific();
+        std::ostringstream o;
+        o << v.vendor_id << "." << vh::to_hex(v.data);
+        return o.str();
+    } catch (const option_not_found&) {
+        return "nf";
+    } catch (const malformed_option&) {
+        return "malformed_option";
+    }
+}
+
 inline bool l2_dump(const PDU& p, std::string& out) {
-    if (p.pdu_type() == PDU::ETHERNET_II) {
+    switch (p.pdu_type()) {
+    case PDU::ETHERNET_II: {
         const EthernetII& e = static_cast<const EthernetII&>(p);
         out = FieldDump().str("dst_addr", hex_of(e.dst_addr())).str("src_addr", hex_of(e.src_addr()))
                   .num("^payload_type", e.payload_type()).done();
         return true;
     }
-    return false;
+    case PDU::IEEE802_3: {
+        const Dot3& e = static_cast<const Dot3&>(p);
+        out = FieldDump().str("dst_addr", hex_of(e.dst_addr())).str("src_addr", hex_of(e.src_addr()))
+                  .num("~length", e.length()).done();
+        return true;
+    }
+    case PDU::LLC: {
+        LLC& l = const_cast<LLC&>(static_cast<const LLC&>(p));   // the getters of LLC are not const
+        out = FieldDump().num("dsap", l.dsap()).num("ssap", l.ssap()).num("group", l.group()).num("response", l.response())
+                  .num("type", l.type()).num("send_seq_number", l.send_seq_number())
+                  .num("receive_seq_number", l.receive_seq_number()).num("poll_final", l.poll_final())
+                  .num("supervisory_function", l.supervisory_function()).num("modifier_function", l.modifier_function())
+                  .done();
+        return true;
+    }
+    case PDU::SNAP: {
+        const SNAP& s = static_cast<const SNAP&>(p);
+        out = FieldDump().num("dsap", s.dsap()).num("ssap", s.ssap()).num("control", s.control())
+                  .num("org_code", uint32_t(s.org_code())).num("^eth_type", s.eth_type()).done();
+        return true;
+    }
+    case PDU::DOT1Q: {
+        const Dot1Q& q = static_cast<const Dot1Q&>(p);
+        out = FieldDump().num("priority", uint32_t(q.priority())).num("cfi", uint32_t(q.cfi())).num("id", uint32_t(q.id()))
+                  .num("^payload_type", q.payload_type()).num("~append_padding", q.append_padding()).done();
+        return true;
+    }
+    case PDU::MPLS: {
+        const MPLS& m = static_cast<const MPLS&>(p);
+        out = FieldDump().num("label", uint32_t(m.label())).num("experimental", uint32_t(m.experimental()))
+                  .num("^bottom_of_stack", uint32_t(m.bottom_of_stack())).num("ttl", m.ttl()).done();
+        return true;
+    }
+    case PDU::PPPOE: {
+        const PPPoE& e = static_cast<const PPPoE&>(p);
+        std::string tags;
+        for (PPPoE::tags_type::const_iterator it = e.tags().begin(); it != e.tags().end(); ++it) {
+            if (!tags.empty()) tags += ",";
+            std::ostringstream o;
+            o << (unsigned)it->option() << ":" << it->length_field() << ":" << vh::to_hex(it->data_ptr(), it->data_size());
+            tags += o.str();
+        }
+        if (tags.empty()) tags = "-";
+        out = FieldDump().num("version", uint32_t(e.version())).num("type", uint32_t(e.type())).num("code", e.code())
+                  .num("session_id", e.session_id()).num("~payload_length", e.payload_length()).str("tags", tags)
+                  .str("service_name", pppoe_typed(e, PPPoE::SERVICE_NAME)).str("ac_name", pppoe_typed(e, PPPoE::AC_NAME))
+                  .str("host_uniq", pppoe_typed(e, PPPoE::HOST_UNIQ)).str("ac_cookie", pppoe_typed(e, PPPoE::AC_COOKIE))
+                  .str("vendor_specific", pppoe_vendor(e))
+                  .str("relay_session_id", pppoe_typed(e, PPPoE::RELAY_SESSION_ID))
+                  .str("service_name_error", pppoe_typed(e, PPPoE::SERVICE_NAME_ERROR))
+                  .str("ac_system_error", pppoe_typed(e, PPPoE::AC_SYSTEM_ERROR))
+                  .str("generic_error", pppoe_typed(e, PPPoE::GENERIC_ERROR)).done();
+        return true;
+    }
+    case PDU::SLL: {
+        const SLL& s = static_cast<const SLL&>(p);
+        SLL::address_type a = s.address();
+        out = FieldDump().num("packet_type", s.packet_type()).num("lladdr_type", s.lladdr_type())
+                  .num("lladdr_len", s.lladdr_len()).str("address", vh::to_hex(a.begin(), 8))
+                  .num("^protocol", s.protocol()).done();
+        return true;
+    }
+    case PDU::LOOPBACK: {
+        const Loopback& l = static_cast<const Loopback&>(p);
+        out = FieldDump().num("^family", l.family()).done();
+        return true;
+    }
+    case PDU::PPI: {
+        const PPI& i = static_cast<const PPI&>(p);
+        out = FieldDump().num("version", i.version()).num("flags", i.flags()).num("length", i.length())
+                  .num("dlt", i.dlt()).done();
+        return true;
+    }
+    case PDU::PKTAP:
+        out = "";
+        return true;
+    default:
+        return false;
+    }
 }
 
 inline bool parse_mac(const std::string& s, HWAddress<6>& out) {
@@ -20,26 +131,202 @@ inline bool parse_mac(const std::string& s, HWAddress<6>& out) {
     return true;
 }
 
+inline bool hex_arg(const std::string& s, bytes& b) { return vh::parse_hex(s, b); }
+inline unsigned long num_arg(const std::string& s) { return std::stoul(s); }
+
 inline PDU* l2_mk(const std::string& cls, const std::vector<std::string>& a) {
     if (cls == "EthernetII") {
         HWAddress<6> d, s;
         if (a.size() == 2 && parse_mac(a[0], d) && parse_mac(a[1], s)) return new EthernetII(d, s);
         return new EthernetII();
     }
+    if (cls == "Dot3") {
+        HWAddress<6> d, s;
+        if (a.size() == 2 && parse_mac(a[0], d) && parse_mac(a[1], s)) return new Dot3(d, s);
+        return new Dot3();
+    }
+    if (cls == "LLC") {
+        if (a.size() == 2) return new LLC(uint8_t(num_arg(a[0])), uint8_t(num_arg(a[1])));
+        return new LLC();
+    }
+    if (cls == "SNAP") return new SNAP();
+    if (cls == "Dot1Q") {
+        if (a.size() == 2) return new Dot1Q(uint16_t(num_arg(a[0]) & 0xfff), a[1] == "1");
+        return new Dot1Q();
+    }
+    if (cls == "MPLS") return new MPLS();
+    if (cls == "PPPoE") return new PPPoE();
+    if (cls == "SLL") return new SLL();
+    if (cls == "Loopback") return new Loopback();
+    if (cls == "PKTAP" && a.size() == 1) {
+        // the central harness has no `parse PKTAP`: `push PKTAP <hex>` runs the parsing constructor
+        bytes b;
+        if (!hex_arg(a[0], b)) return 0;
+        std::unique_ptr<uint8_t[]> blk(new uint8_t[b.size() ? b.size() : 1]);
+        if (!b.empty()) memcpy(blk.get(), b.data(), b.size());
+        return new PKTAP(b.empty() ? blk.get() + 1 : blk.get(), uint32_t(b.size()));
+    }
     return 0;
 }
 
 inline bool l2_apply(PDU& p, const std::vector<std::string>& op) {
-    if (p.pdu_type() == PDU::ETHERNET_II && op.size() == 2) {
+    const size_t n = op.size();
+    switch (p.pdu_type()) {
+    case PDU::ETHERNET_II: {
+        if (n != 2) return false;
         EthernetII& e = static_cast<EthernetII&>(p);
         HWAddress<6> m;
         if (op[0] == "dst_addr" && parse_mac(op[1], m)) { e.dst_addr(m); return true; }
         if (op[0] == "src_addr" && parse_mac(op[1], m)) { e.src_addr(m); return true; }
-        if (op[0] == "payload_type") { e.payload_type(uint16_t(std::stoul(op[1]))); return true; }
+        if (op[0] == "payload_type") { e.payload_type(uint16_t(num_arg(op[1]))); return true; }
+        return false;
     }
-    return false;
+    case PDU::IEEE802_3: {
+        if (n != 2) return false;
+        Dot3& e = static_cast<Dot3&>(p);
+        HWAddress<6> m;
+        if (op[0] == "dst_addr" && parse_mac(op[1], m)) { e.dst_addr(m); return true; }
+        if (op[0] == "src_addr" && parse_mac(op[1], m)) { e.src_addr(m); return true; }
+        if (op[0] == "length") { e.length(uint16_t(num_arg(op[1]))); return true; }
+        return false;
+    }
+    case PDU::LLC: {
+        LLC& l = static_cast<LLC&>(p);
+        if (n == 1 && op[0] == "clear_information_fields") { l.clear_information_fields(); return true; }
+        if (n == 4 && op[0] == "add_xid_information") {
+            l.add_xid_information(uint8_t(num_arg(op[1])), uint8_t(num_arg(op[2])), uint8_t(num_arg(op[3])));
+            return true;
+        }
+        if (n != 2) return false;
+        unsigned long v = num_arg(op[1]);
+        if (op[0] == "dsap") { l.dsap(uint8_t(v)); return true; }
+        if (op[0] == "ssap") { l.ssap(uint8_t(v)); return true; }
+        if (op[0] == "group") { l.group(v == 1); return true; }
+        if (op[0] == "response") { l.response(v == 1); return true; }
+        if (op[0] == "type" && (v == 0 || v == 1 || v == 3)) { l.type(LLC::Format(v)); return true; }
+        if (op[0] == "send_seq_number") { l.send_seq_number(uint8_t(v)); return true; }
+        if (op[0] == "receive_seq_number") { l.receive_seq_number(uint8_t(v)); return true; }
+        if (op[0] == "poll_final") { l.poll_final(v == 1); return true; }
+        if (op[0] == "supervisory_function") { l.supervisory_function(LLC::SupervisoryFunctions(v & 3)); return true; }
+        if (op[0] == "modifier_function") { l.modifier_function(LLC::ModifierFunctions(v & 31)); return true; }
+        return false;
+    }
+    case PDU::SNAP: {
+        if (n != 2) return false;
+        SNAP& s = static_cast<SNAP&>(p);
+        unsigned long v = num_arg(op[1]);
+        if (op[0] == "control") { s.control(uint8_t(v)); return true; }
+        if (op[0] == "org_code") { s.org_code(uint32_t(v & 0xffffff)); return true; }
+        if (op[0] == "eth_type") { s.eth_type(uint16_t(v)); return true; }
+        return false;
+    }
+    case PDU::DOT1Q: {
+        if (n != 2) return false;
+        Dot1Q& q = static_cast<Dot1Q&>(p);
+        unsigned long v = num_arg(op[1]);
+        if (op[0] == "priority") { q.priority(uint8_t(v & 7)); return true; }
+        if (op[0] == "cfi") { q.cfi(uint8_t(v & 1)); return true; }
+        if (op[0] == "id") { q.id(uint16_t(v & 0xfff)); return true; }
+        if (op[0] == "payload_type") { q.payload_type(uint16_t(v)); return true; }
+        if (op[0] == "append_padding") { q.append_padding(v == 1); return true; }
+        return false;
+    }
+    case PDU::MPLS: {
+        if (n != 2) return false;
+        MPLS& m = static_cast<MPLS&>(p);
+        unsigned long v = num_arg(op[1]);
+        if (op[0] == "label") { m.label(uint32_t(v & 0xfffff)); return true; }
+        if (op[0] == "experimental") { m.experimental(uint8_t(v & 7)); return true; }
+        if (op[0] == "bottom_of_stack") { m.bottom_of_stack(uint8_t(v & 1)); return true; }
+        if (op[0] == "ttl") { m.ttl(uint8_t(v)); return true; }
+        return false;
+    }
+    case PDU::PPPOE: {
+        PPPoE& e = static_cast<PPPoE&>(p);
+        if (n == 1 && op[0] == "end_of_list") { e.end_of_list(); return true; }
+        if (n == 3 && op[0] == "add_tag") {
+            bytes b;
+            if (!hex_arg(op[2], b)) return false;
+            e.add_tag(PPPoE::tag(PPPoE::TagTypes(uint16_t(num_arg(op[1]))), b.begin(), b.end()));
+            return true;
+        }
+        if (n == 3 && op[0] == "add_tag_copy") {          // the `add_tag(const tag&)` overload (the rvalue one is inline)
+            bytes b;
+            if (!hex_arg(op[2], b)) return false;
+            const PPPoE::tag t(PPPoE::TagTypes(uint16_t(num_arg(op[1]))), b.begin(), b.end());
+            e.add_tag(t);
+            return true;
+        }
+        if (n == 3 && op[0] == "vendor_specific") {
+            bytes b;
+            if (!hex_arg(op[2], b)) return false;
+            e.vendor_specific(PPPoE::vendor_spec_type(uint32_t(num_arg(op[1])), b));
+            return true;
+        }
+        if (n != 2) return false;
+        if (op[0] == "version") { e.version(uint8_t(num_arg(op[1]) & 15)); return true; }
+        if (op[0] == "type") { e.type(uint8_t(num_arg(op[1]) & 15)); return true; }
+        if (op[0] == "code") { e.code(uint8_t(num_arg(op[1]))); return true; }
+        if (op[0] == "session_id") { e.session_id(uint16_t(num_arg(op[1]))); return true; }
+        if (op[0] == "payload_length") { e.payload_length(uint16_t(num_arg(op[1]))); return true; }
+        bytes b;
+        if (!hex_arg(op[1], b)) return false;
+        std::string s(b.begin(), b.end());
+        if (op[0] == "service_name") { e.service_name(s); return true; }
+        if (op[0] == "ac_name") { e.ac_name(s); return true; }
+        if (op[0] == "host_uniq") { e.host_uniq(b); return true; }
+        if (op[0] == "ac_cookie") { e.ac_cookie(b); return true; }
+        if (op[0] == "relay_session_id") { e.relay_session_id(b); return true; }
+        if (op[0] == "service_name_error") { e.service_name_error(s); return true; }
+        if (op[0] == "ac_system_error") { e.ac_system_error(s); return true; }
+        if (op[0] == "generic_error") { e.generic_error(s); return true; }
+        return false;
+    }
+    case PDU::SLL: {
+        if (n != 2) return false;
+        SLL& s = static_cast<SLL&>(p);
+        if (op[0] == "address") {
+            bytes b;
+            if (!hex_arg(op[1], b) || b.size() != 8) return false;
+            s.address(SLL::address_type(b.data()));
+            return true;
+        }
+        unsigned long v = num_arg(op[1]);
+        if (op[0] == "packet_type") { s.packet_type(uint16_t(v)); return true; }
+        if (op[0] == "lladdr_type") { s.lladdr_type(uint16_t(v)); return true; }
+        if (op[0] == "lladdr_len") { s.lladdr_len(uint16_t(v)); return true; }
+        if (op[0] == "protocol") { s.protocol(uint16_t(v)); return true; }
+        return false;
+    }
+    case PDU::LOOPBACK: {
+        if (n != 2) return false;
+        Loopback& l = static_cast<Loopback&>(p);
+        if (op[0] == "family") { l.family(uint32_t(num_arg(op[1]))); return true; }
+        return false;
+    }
+    default:
+        return false;
+    }
 }
 
-inline bool l2_sweep(const PDU&, std::string&) { return false; }
+// read-only accessors that can fail: the typed tag getters of PPPoE on every packet (present or not, well-formed or not)
+inline bool l2_sweep(const PDU& p, std::string& out) {
+    if (p.pdu_type() != PDU::PPPOE) return false;
+    const PPPoE& e = static_cast<const PPPoE&>(p);
+    sweep_item(out, "service_name", [&] { e.service_name(); });
+    sweep_item(out, "ac_name", [&] { e.ac_name(); });
+    sweep_item(out, "host_uniq", [&] { e.host_uniq(); });
+    sweep_item(out, "ac_cookie", [&] { e.ac_cookie(); });
+    sweep_item(out, "vendor_specific", [&] { e.vendor_specific(); });
+    sweep_item(out, "relay_session_id", [&] { e.relay_session_id(); });
+    sweep_item(out, "service_name_error", [&] { e.service_name_error(); });
+    sweep_item(out, "ac_system_error", [&] { e.ac_system_error(); });
+    sweep_item(out, "generic_error", [&] { e.generic_error(); });
+    for (PPPoE::tags_type::const_iterator it = e.tags().begin(); it != e.tags().end(); ++it) {
+        sweep_item(out, "tag.to_vendor", [&] { it->to<PPPoE::vendor_spec_type>(); });
+        sweep_item(out, "tag.to_string", [&] { it->to<std::string>(); });
+    }
+    return true;
+}
 
 } // namespace wire
